@@ -55,7 +55,11 @@ func (f *fakePingClient) Ping() (*models.PingResult, error) {
 	}
 	w.jl(&journal.Ev{K: journal.KRet, Vb: -1, S: "Ping", ID: id, S2: res})
 	if err != nil {
-		return nil, err
+		if f.n%2 == 1 {
+			// the cluster answered but one service is unhealthy: client.Ping returns the partial result with the error
+			return &models.PingResult{MemdEndpoint: "a"}, err
+		}
+		return nil, err // timed out
 	}
 	return &models.PingResult{MemdEndpoint: "a", MgmtEndpoint: "b"}, nil
 }
